@@ -161,6 +161,7 @@ def parse_enums(repo):
             enums[m.group(1)] = vs
     enums["Result"] = ["Ok", "Err"]
     enums["Option"] = ["None", "Some"]
+    enums["ControlFlow"] = ["Continue", "Break"]
     return enums
 
 
@@ -194,6 +195,51 @@ def bvc(n, w):
     return "(_ bv%d %d)" % (n % (1 << w), w)
 
 
+LIT = re.compile(r"^\(_ bv(\d+) (\d+)\)$")
+
+
+def lit(t):
+    m = LIT.match(t) if isinstance(t, str) else None
+    return (int(m.group(1)), int(m.group(2))) if m else None
+
+
+def mk_bin(op, a, b, w):
+    """SMT term for a bit-vector operation, folding literals."""
+    la, lb = lit(a), lit(b)
+    if la and lb:
+        x, y, mask = la[0], lb[0], (1 << w) - 1
+        r = {"bvand": x & y, "bvor": x | y, "bvxor": x ^ y, "bvadd": (x + y) & mask, "bvsub": (x - y) & mask, "bvmul": (x * y) & mask,
+             "bvlshr": (x >> y) if y < w else 0, "bvshl": ((x << y) & mask) if y < w else 0,
+             "bvurem": (x % y) if y else x, "bvudiv": (x // y) if y else mask}.get(op)
+        if r is not None:
+            return bvc(r, w)
+    return "(%s %s %s)" % (op, a, b)
+
+
+def mk_cmp(op, a, b):
+    la, lb = lit(a), lit(b)
+    if la and lb:
+        x, y = la[0], lb[0]
+        r = {"=": x == y, "distinct": x != y, "bvult": x < y, "bvule": x <= y, "bvugt": x > y, "bvuge": x >= y}[op]
+        return "true" if r else "false"
+    return "(%s %s %s)" % (op, a, b)
+
+
+def mk_ext(t, frm, to):
+    l = lit(t)
+    if to == frm:
+        return t
+    if l:
+        return bvc(l[0], to)
+    if to < frm:
+        return "((_ extract %d 0) %s)" % (to - 1, t)
+    return "((_ zero_extend %d) %s)" % (to - frm, t)
+
+
+def mk_not(t):
+    return {"true": "false", "false": "true"}.get(t, "(not %s)" % t)
+
+
 def short_ty(t):
     t = t.strip()
     t = re.sub(r"[\w]+::", "", t)
@@ -219,6 +265,8 @@ class Ctx:
         self.panics = []
         self.steps = 0
         self.summarize = None
+        self.named_consts = {}
+        self.generic_layout = None
         self.unit_structs = set()
         ldir = os.path.join(repo, "src/layouts")
         for fn_ in sorted(os.listdir(ldir)):
@@ -257,6 +305,10 @@ class Ctx:
         m = re.match(r"^'(.*)'$", s, re.S)
         if m:
             return V("bv", term=bvc(parse_char(m.group(1)), 32), w=32)
+        m = re.match(r"^(u8|u16|u32|u64|usize)::(MAX|MIN)$", s)
+        if m:
+            w = WIDTH[m.group(1)]
+            return V("bv", term=bvc((1 << w) - 1 if m.group(2) == "MAX" else 0, w), w=w)
         m = re.match(r"^(\w+)$", s)
         if m and ty is None:
             return V("struct", ty=s, fields=[])
@@ -298,6 +350,8 @@ class Path:
 
 
 def conj(a, b):
+    if a == "false" or b == "false":
+        return "false"
     if a == "true":
         return b
     if b == "true":
@@ -307,10 +361,21 @@ def conj(a, b):
 
 def execute(ctx, fn, args, depth=0):
     """All paths of fn: list of (condition term, return V or ('panic', msg))."""
+    return [(c, v) for c, v, _ in execute_full(ctx, fn, args, depth)]
+
+
+def execute_full(ctx, fn, args, depth=0, heap=None):
+    """All paths of fn: list of (condition, return V or ('panic', msg), final environment).  A `&mut`
+    parameter is a reference to a *slot* of the environment (copy-on-write per path); `heap` carries the
+    caller's slots into an inlined callee."""
     if depth > 6:
         raise Unsupported("call depth")
-    env0 = {}
+    env0 = dict(heap or {})
     for (pn, pt), a in zip(fn.params, args):
+        if pt.startswith("&mut ") and a.kind == "ref" and getattr(a, "slot", None) is None:
+            slot = "@%d%s" % (depth, pn)
+            env0[slot] = a.target
+            a = V("ref", slot=slot)
         env0[pn] = a
     results = []
     work = [(Path("true", env0), "bb0")]
@@ -330,12 +395,12 @@ def execute(ctx, fn, args, depth=0):
             if s.startswith("StorageLive") or s.startswith("StorageDead") or s == "nop" or s.startswith("ConstEvalCounter") or s.startswith("FakeRead") or s.startswith("PlaceMention") or s.startswith("Retag") or s.startswith("//"):
                 continue
             if s == "return":
-                results.append((cond, env.get("_0", V("struct", ty="()", fields=[]))))
+                results.append((cond, env.get("_0", V("struct", ty="()", fields=[])), env))
                 done = True
                 break
             if s == "unreachable":
                 # reaching it would be UB: record as a panic path so that the feasibility query covers it
-                results.append((cond, ("panic", "unreachable")))
+                results.append((cond, ("panic", "unreachable"), env))
                 done = True
                 break
             m = re.match(r"^goto -> (bb\d+)$", s)
@@ -353,31 +418,40 @@ def execute(ctx, fn, args, depth=0):
                     if k == "otherwise":
                         oc = "true"
                         for sv in seen:
-                            oc = conj(oc, "(not %s)" % sv)
-                        work.append((Path(conj(cond, oc), env), b))
+                            oc = conj(oc, mk_not(sv))
+                        if conj(cond, oc) != "false":
+                            work.append((Path(conj(cond, oc), env), b))
                     else:
                         n = int(k)
                         if v.kind == "bool":
-                            c = v.term if n != 0 else "(not %s)" % v.term
+                            c = v.term if n != 0 else mk_not(v.term)
                         elif v.kind == "bv":
-                            c = "(= %s %s)" % (v.term, bvc(n, v.w))
+                            c = mk_cmp("=", v.term, bvc(n, v.w))
                         else:
                             raise Unsupported("switchInt on " + v.kind)
                         c = simplify_eq(c)
                         if c == "false":
                             continue
                         seen.append(c)
-                        work.append((Path(conj(cond, c), env), b))
+                        if conj(cond, c) != "false":
+                            work.append((Path(conj(cond, c), env), b))
+                        if c == "true":
+                            break
                 done = True
                 break
             m = re.match(r"^assert\((!?)(.*?), \"(.*?)\".*\) -> \[success: (bb\d+).*\]$", s)
             if m:
                 v = to_bool(operand(ctx, fn, env, m.group(2)))
-                ok = "(not %s)" % v if m.group(1) else v
+                ok = mk_not(v) if m.group(1) else v
                 ok = simplify_eq(ok)
                 if ok != "true":
-                    results.append((conj(cond, "(not %s)" % ok), ("panic", m.group(3))))
+                    pc = conj(cond, mk_not(ok))
+                    if pc != "false":
+                        results.append((pc, ("panic", m.group(3)), env))
                     cond = conj(cond, ok)
+                    if cond == "false":
+                        done = True
+                        break
                 work.append((Path(cond, env), m.group(4)))
                 done = True
                 break
@@ -385,13 +459,20 @@ def execute(ctx, fn, args, depth=0):
             if m and not m.group(2).startswith("const ") and re.match(r"^[\w<&]", m.group(2)) and not re.match(r"^(copy|move|Result::<|Option::<|DecodedKey::\w+$)", m.group(2)):
                 dest, callee, argstr, nxt = m.group(1), m.group(2), m.group(3), m.group(4)
                 argv = [operand(ctx, fn, env, a) for a in split_top(argstr)] if argstr.strip() else []
-                for c2, rv in call(ctx, callee, argv, depth):
-                    if isinstance(rv, tuple):
-                        results.append((conj(cond, c2), rv))
+                heap = {k: v for k, v in env.items() if k.startswith("@")}
+                for c2, rv, henv in call(ctx, callee, argv, depth, heap):
+                    cc = conj(cond, c2)
+                    if cc == "false":
                         continue
                     e2 = dict(env)
+                    for k, v in henv.items():  # mutations through &mut arguments
+                        if k.startswith("@") and k in env:
+                            e2[k] = v
+                    if isinstance(rv, tuple):
+                        results.append((cc, rv, e2))
+                        continue
                     assign(ctx, fn, e2, dest, rv)
-                    work.append((Path(conj(cond, c2), e2), nxt))
+                    work.append((Path(cc, e2), nxt))
                 done = True
                 break
             m = re.match(r"^(.+?) = (.*)$", s)
@@ -416,16 +497,26 @@ def simplify_eq(c):
 
 
 def assign(ctx, fn, env, place, val):
+    """Functional update of a place: locals, fields (nested), and the pointee of a `&mut` slot."""
     place = place.strip()
     if re.match(r"^_\d+$", place):
         env[place] = val
         return
-    m = re.match(r"^\((_\d+)\.(\d+): .*\)$", place)
-    if m and m.group(1) in env and env[m.group(1)].kind == "struct":
-        old = env[m.group(1)]
+    m = re.match(r"^\(\*(.+)\)$", place)
+    if m:
+        r = place_value(ctx, fn, env, m.group(1))
+        if r.kind == "ref" and getattr(r, "slot", None):
+            env[r.slot] = val
+            return
+        raise Unsupported("write through a shared reference: " + place)
+    m = re.match(r"^\((.+)\.(\d+): .*\)$", place)
+    if m:
+        old = place_value(ctx, fn, env, m.group(1))
+        if old.kind != "struct":
+            raise Unsupported("field assignment into " + old.kind)
         fields = list(old.fields)
         fields[int(m.group(2))] = val
-        env[m.group(1)] = V("struct", ty=old.ty, fields=fields)  # copy on write; earlier references keep the old value
+        assign(ctx, fn, env, m.group(1), V("struct", ty=old.ty, fields=fields))  # copy on write
         return
     raise Unsupported("assignment to place " + place)
 
@@ -442,7 +533,9 @@ def place_value(ctx, fn, env, p):
     m = re.match(r"^\(\*(.+)\)$", p)
     if m:
         v = place_value(ctx, fn, env, m.group(1))
-        while v.kind == "ref":
+        if v.kind == "ref":
+            if getattr(v, "slot", None):
+                return env[v.slot]
             return v.target
         raise Unsupported("deref of non-ref")
     m = re.match(r"^\((.+) as (\w+)\)$", p)  # downcast, only valid together with a field projection
@@ -481,6 +574,8 @@ def operand(ctx, fn, env, s):
             return promoted(ctx, c)
         if re.match(r"^[\w:]+::\w+$", c) and c.split("::")[-2] in ctx.enums:
             return ctx.enum_const(c.split("::")[-2], c.split("::")[-1])
+        if c.split("::")[-1] in ctx.named_consts:
+            return ctx.named_consts[c.split("::")[-1]]
         return ctx.const(c)
     if re.match(r"^_\d+$", s) or s.startswith("("):
         return place_value(ctx, fn, env, s)
@@ -519,20 +614,28 @@ def rvalue(ctx, fn, env, s, dest_ty=None):
             return V("bool", term=t % (a.term, b.term))
         if a.kind != "bv" or b.kind != "bv":
             raise Unsupported("binop on %s,%s" % (a.kind, b.kind))
-        bt = b.term
-        if b.w != a.w:  # shifts: amount has its own width
-            if b.w > a.w:
-                bt = "((_ extract %d 0) %s)" % (a.w - 1, b.term)
-            else:
-                bt = "((_ zero_extend %d) %s)" % (a.w - b.w, b.term)
+        bt = mk_ext(b.term, b.w, a.w)  # shifts: the amount has its own width
         if op in BINOPS:
-            return V("bv", term="(%s %s %s)" % (BINOPS[op], a.term, bt), w=a.w)
-        return V("bool", term="(%s %s %s)" % (CMPS[op], a.term, bt))
+            return V("bv", term=mk_bin(BINOPS[op], a.term, bt, a.w), w=a.w)
+        return V("bool", term=mk_cmp(CMPS[op], a.term, bt))
+    m = re.match(r"^(Add|Sub)WithOverflow\((.*)\)$", s)
+    if m:
+        a, b = [operand(ctx, fn, env, x) for x in split_top(m.group(2))]
+        w = a.w
+        ea, eb = mk_ext(a.term, w, w + 1), mk_ext(b.term, w, w + 1)
+        if m.group(1) == "Add":
+            wide = mk_bin("bvadd", ea, eb, w + 1)
+            ovf = mk_cmp("bvugt", wide, bvc((1 << w) - 1, w + 1))
+            res = mk_bin("bvadd", a.term, b.term, w)
+        else:
+            ovf = mk_cmp("bvult", a.term, b.term)
+            res = mk_bin("bvsub", a.term, b.term, w)
+        return V("struct", ty="tuple", fields=[V("bv", term=res, w=w), V("bool", term=ovf)])
     m = re.match(r"^Not\((.*)\)$", s)
     if m:
         a = operand(ctx, fn, env, m.group(1))
         if a.kind == "bool":
-            return V("bool", term="(not %s)" % a.term)
+            return V("bool", term=mk_not(a.term))
         return V("bv", term="(bvnot %s)" % a.term, w=a.w)
     m = re.match(r"^(.*) as (\w+) \((IntToInt|Transmute)\)$", s)
     if m:
@@ -544,11 +647,7 @@ def rvalue(ctx, fn, env, s, dest_ty=None):
             return V("bv", term="(ite %s %s %s)" % (a.term, bvc(1, w), bvc(0, w)), w=w)
         if a.kind == "enum":
             a = V("bv", term=a.tag, w=16)
-        if w == a.w:
-            return a
-        if w < a.w:
-            return V("bv", term="((_ extract %d 0) %s)" % (w - 1, a.term), w=w)
-        return V("bv", term="((_ zero_extend %d) %s)" % (w - a.w, a.term), w=w)
+        return V("bv", term=mk_ext(a.term, a.w, w), w=w)
     m = re.match(r"^discriminant\((.*)\)$", s)
     if m:
         v = place_value(ctx, fn, env, m.group(1))
@@ -583,8 +682,29 @@ def rvalue(ctx, fn, env, s, dest_ty=None):
     raise Unsupported("rvalue " + s)
 
 
-def call(ctx, callee, argv, depth):
+def call(ctx, callee, argv, depth, heap=None):
+    """Paths of a call: (condition, value, environment-with-heap-slots)."""
+    return [(r[0], r[1], r[2] if len(r) > 2 else {}) for r in _call(ctx, callee, argv, depth, heap or {})]
+
+
+def _call(ctx, callee, argv, depth, heap):
     callee = callee.strip()
+    m = re.match(r"^<Result<.*> as Try>::branch$", callee)
+    if m:
+        r = argv[0]
+        if r.kind == "enum" and r.payload:
+            var = list(r.payload.keys())[0]
+            if var == "Ok":
+                return [("true", ctx.enum_const("ControlFlow", "Continue", r.payload[var]))]
+            return [("true", ctx.enum_const("ControlFlow", "Break", [ctx.enum_const("Result", "Err", r.payload[var])]))]
+        raise Unsupported("Try::branch on a value of unknown variant")
+    if re.match(r"^<Result<.*> as FromResidual<.*>>::from_residual$", callee):
+        r = argv[0]
+        if r.kind == "enum" and list(r.payload.keys()) == ["Err"]:
+            return [("true", ctx.enum_const("Result", "Err", r.payload["Err"]))]
+        raise Unsupported("from_residual on a non-Err value")
+    if re.match(r"^<L as (?:[\w]+::)*KeyboardLayout>::map_keycode$", callee) and ctx.generic_layout is not None:
+        return [("true", ctx.generic_layout(argv))]
     # modelled core functions
     if callee == "core::num::<impl u8>::count_ones":
         a = argv[0]
@@ -640,16 +760,16 @@ def call(ctx, callee, argv, depth):
                     a = "%s %s %s" % (k.tag, " ".join(to_bool(x) for x in mods.fields), h.tag)
                     return [("true", V("decoded_sym", tag="(%s_tag %s)" % (name, a), raw="(%s_raw %s)" % (name, a), uni="(%s_uni %s)" % (name, a)))]
         f = ctx.find(m.group(1), m.group(3))
-        return execute(ctx, f, argv, depth + 1)
+        return execute_full(ctx, f, argv, depth + 1, heap)
     m = re.match(r"^(?:[\w]+::)*(\w+)::(\w+)$", callee)
     if m:
         try:
             f = ctx.find(m.group(1), m.group(2))
         except Unsupported:
             f = ctx.find("fn", m.group(2))  # module::free_function
-        return execute(ctx, f, argv, depth + 1)
+        return execute_full(ctx, f, argv, depth + 1, heap)
     if re.match(r"^\w+$", callee):
-        return execute(ctx, ctx.find("fn", callee), argv, depth + 1)
+        return execute_full(ctx, ctx.find("fn", callee), argv, depth + 1, heap)
     raise Unsupported("call to " + callee)
 
 
